@@ -2,21 +2,151 @@ package main
 
 import (
 	"fmt"
+	"go/ast"
+	"regexp"
 
 	"pdverif/internal/goast"
 )
 
 func init() { gens["C07"] = genC07 }
 
-// srcDef prints the whole body of a small pure function as normalised source text: the model
-// transcribes these functions literally, so any token change must break the `reflexivity` tie.
+// srcDef prints the whole body of a function as normalised source text: the model transcribes these functions
+// literally, so a change of their meaning must break the `reflexivity` tie.  Normalised = comments and layout
+// dropped, log lines and metric updates dropped, local names (receiver, parameters, results, locals) replaced by
+// canonical ones in order of first appearance: an added log/metrics line or a renamed local is not a change.
 func (o *out) srcDef(f *goast.File, recv, name, coqName string) error {
 	fd, err := f.Func(recv, name)
 	if err != nil {
 		return err
 	}
+	c07NormalizeFunc(fd)
 	fmt.Fprintf(&o.sb, "Definition %s : string := (* %s: (%s).%s, body *)\n  %s.\n", coqName, f.Path, recv, name, goast.Q(f.Src(fd.Body)))
 	return nil
+}
+
+var c07MetricRoot = regexp.MustCompile(`(?i)(counter|gauge|histogram|summary|duration|metric)`)
+
+func c07RootIdent(e ast.Expr) *ast.Ident {
+	for {
+		switch x := e.(type) {
+		case *ast.Ident:
+			return x
+		case *ast.SelectorExpr:
+			e = x.X
+		case *ast.CallExpr:
+			e = x.Fun
+		default:
+			return nil
+		}
+	}
+}
+
+// noise: log.Debug/Info/Warn/Error(...) and <package-level metric>.…Inc/Dec/Add/Sub/Set/Observe(...) as statements
+func c07IsNoiseStmt(s ast.Stmt, local map[*ast.Object]bool) bool {
+	es, ok := s.(*ast.ExprStmt)
+	if !ok {
+		return false
+	}
+	call, ok := es.X.(*ast.CallExpr)
+	if !ok {
+		return false
+	}
+	sel, ok := call.Fun.(*ast.SelectorExpr)
+	if !ok {
+		return false
+	}
+	root := c07RootIdent(sel.X)
+	if root == nil || (root.Obj != nil && local[root.Obj]) {
+		return false
+	}
+	if root.Name == "log" {
+		switch sel.Sel.Name {
+		case "Debug", "Info", "Warn", "Error":
+			return true
+		}
+		return false
+	}
+	if c07MetricRoot.MatchString(root.Name) {
+		switch sel.Sel.Name {
+		case "Inc", "Dec", "Add", "Sub", "Set", "Observe":
+			return true
+		}
+	}
+	return false
+}
+
+// c07NormalizeFunc rewrites fd in place and returns the canonical names of its locals in order of first appearance.
+func c07NormalizeFunc(fd *ast.FuncDecl) []string {
+	if fd.Body == nil {
+		return nil
+	}
+	// field names used as keys of struct literals are not variables, even when a local of the same name exists
+	// (go/parser resolves them syntactically)
+	fieldKey := map[*ast.Ident]bool{}
+	ast.Inspect(fd, func(n ast.Node) bool {
+		if cl, ok := n.(*ast.CompositeLit); ok {
+			switch cl.Type.(type) {
+			case *ast.MapType, *ast.ArrayType:
+			default:
+				for _, e := range cl.Elts {
+					if kv, ok := e.(*ast.KeyValueExpr); ok {
+						if id, ok := kv.Key.(*ast.Ident); ok {
+							fieldKey[id] = true
+						}
+					}
+				}
+			}
+		}
+		return true
+	})
+	// pass 1: the objects declared inside the function (positions are looked up before any renaming)
+	local := map[*ast.Object]bool{}
+	ast.Inspect(fd, func(n ast.Node) bool {
+		if id, ok := n.(*ast.Ident); ok && !fieldKey[id] && id.Obj != nil && id.Name != "_" && (id.Obj.Kind == ast.Var || id.Obj.Kind == ast.Con) {
+			if _, seen := local[id.Obj]; !seen {
+				p := id.Obj.Pos()
+				local[id.Obj] = p >= fd.Pos() && p < fd.End()
+			}
+		}
+		return true
+	})
+	// pass 2: drop log / metric statements
+	filter := func(l []ast.Stmt) []ast.Stmt {
+		out := l[:0]
+		for _, s := range l {
+			if !c07IsNoiseStmt(s, local) {
+				out = append(out, s)
+			}
+		}
+		return out
+	}
+	ast.Inspect(fd.Body, func(n ast.Node) bool {
+		switch x := n.(type) {
+		case *ast.BlockStmt:
+			x.List = filter(x.List)
+		case *ast.CaseClause:
+			x.Body = filter(x.Body)
+		case *ast.CommClause:
+			x.Body = filter(x.Body)
+		}
+		return true
+	})
+	// pass 3: canonical names
+	names := map[*ast.Object]string{}
+	var order []string
+	ast.Inspect(fd, func(n ast.Node) bool {
+		if id, ok := n.(*ast.Ident); ok && !fieldKey[id] && id.Obj != nil && local[id.Obj] {
+			nm, seen := names[id.Obj]
+			if !seen {
+				nm = fmt.Sprintf("v%d", len(names))
+				names[id.Obj] = nm
+				order = append(order, nm)
+			}
+			id.Name = nm
+		}
+		return true
+	})
+	return order
 }
 
 // c07Skeletons is shared with C06 (which imports the C07 model).
